@@ -232,6 +232,28 @@ BAD_FAMS = ["negative_sum1", "tiny_negative", "above_one", "above_one_neg", "sum
 
 
 # ----------------------------------------------------------------------------- evaluation
+DM_MAX_QUBITS = 5
+
+
+def strip_trailing_resets(circ):
+    """(copy of circ without its trailing reset instructions, qubit indices that were reset); the circuit may be a
+    host with a single appended gate (static entry point): then the gate's definition is looked into."""
+    from qiskit import QuantumCircuit
+    data = list(circ.data)
+    if len(data) == 1 and data[0].operation.name != "reset" and data[0].operation.definition is not None \
+            and [circ.find_bit(q).index for q in data[0].qubits] == list(range(circ.num_qubits)) \
+            and any(i.operation.name == "reset" for i in data[0].operation.definition.data):
+        return strip_trailing_resets(data[0].operation.definition)
+    resets = []
+    while data and data[-1].operation.name == "reset":
+        resets.append(circ.find_bit(data[-1].qubits[0]).index)
+        data.pop()
+    body = QuantumCircuit(circ.num_qubits)
+    for inst in data:
+        body.append(inst.operation, [circ.find_bit(q).index for q in inst.qubits])
+    return body, resets[::-1]
+
+
 def build(ens, probs, init_name, opt, classical, reset, entry, as_lists, probs_array):
     """returns the circuit whose qubits are [aux..., data...]"""
     from qiskit import QuantumCircuit
@@ -275,9 +297,22 @@ def eval_case(ctx, c, ens, probs):
         ctx.violation(f"{tag}: declared width {gate.num_qubits} != definition width {circ.num_qubits}", case)
         ok = False
     try:
-        if c["reset"]:
+        if c["reset"] and circ.num_qubits <= DM_MAX_QUBITS:
             dm = DensityMatrix.from_label("0" * circ.num_qubits).evolve(circ).data
             rho, aux = reduced_from_dm(dm, na)
+        elif c["reset"]:
+            # density-matrix simulation of nested circuits is slow: peel the trailing resets off (they must be
+            # exactly one reset per auxiliary qubit, after everything else) and use that a channel on the
+            # auxiliary qubits alone leaves the data qubits' reduced state unchanged and leaves the auxiliaries in |0>
+            body, reset_qubits = strip_trailing_resets(circ)
+            if sorted(reset_qubits) != list(range(na)):
+                ctx.violation(f"{tag}: reset=True but the trailing resets act on qubits {reset_qubits}, expected the "
+                              f"auxiliary qubits {list(range(na))}", case)
+                return False
+            psi = Statevector.from_label("0" * body.num_qubits).evolve(body).data
+            rho, _ = reduced_from_vector(psi, na)
+            aux = np.zeros((2 ** na, 2 ** na), dtype=complex)
+            aux[0, 0] = 1.0
         else:
             psi = Statevector.from_label("0" * circ.num_qubits).evolve(circ).data
             rho, aux = reduced_from_vector(psi, na)
@@ -288,7 +323,24 @@ def eval_case(ctx, c, ens, probs):
     err = float(np.abs(rho - ref).max())
     if not np.isfinite(err) or err > TOL:
         case["err"] = err
-        ctx.violation(f"{tag}: reduced state of the data qubits differs from sum_i p_i|psi_i><psi_i| by {err:.3g}", case)
+        suffix = ""
+        if np.isfinite(err) and err < 1e-3 and c["initializer"] == "LowRankInitialize" \
+                and (c["opt_params"] or {}).get("unitary_scheme", "qsd") == "qsd" and not c.get("_retry"):
+            # DESIGN section 6 #14: Qiskit's _apply_a2 (used by the qsd scheme only) loses ~1e-5 on some real
+            # orthogonal blocks.  Classify: does the same input pass with unitary_scheme='csd'?
+            c2 = dict(c)
+            c2["opt_params"] = dict(c["opt_params"] or {}, unitary_scheme="csd")
+            c2["_retry"] = True
+            try:
+                circ2, _ = build(ens, probs, c2["initializer"], c2["opt_params"], c2["classical"], False, "constructor",
+                                 c2["as_lists"], c2["probs_array"])
+                psi2 = Statevector.from_label("0" * circ2.num_qubits).evolve(circ2).data
+                rho2, _ = reduced_from_vector(psi2, na)
+                if float(np.abs(rho2 - ref).max()) <= TOL:
+                    suffix = " [qiskit-a2: exact with unitary_scheme='csd']"
+            except Exception:  # noqa: BLE001
+                pass
+        ctx.violation(f"{tag}: reduced state of the data qubits differs from sum_i p_i|psi_i><psi_i| by {err:.3g}{suffix}", case)
         ok = False
     if c["reset"] and na > 0:
         # documented effect of reset=True: the auxiliary qubits end in |0..0>
@@ -322,7 +374,7 @@ def eval_bad(ctx, c, ens, probs):
 def evaluate(ctx, deep):
     rng = ctx.rng
     nmax = 4 if deep else 3
-    kmax = 9 if deep else 7
+    kmax = 9 if deep else 8
     # ---- valid ensembles --------------------------------------------------------------
     for n in range(1, nmax + 1):
         for k in range(1, kmax + 1):
@@ -330,7 +382,7 @@ def evaluate(ctx, deep):
             for classical in (True, False):
                 if not classical and (n < 2 or k < 2):
                     continue                 # quantifier: in-circuit purification for n >= 2, k >= 2
-                heavy = (not classical) and (n + k >= (11 if deep else 9))
+                heavy = (not classical) and (n + k >= (12 if deep else 10))
                 # default configuration: every ensemble family x a rotating probability family
                 fams = ENS_FAMS if not heavy else ENS_FAMS[:1] + [ENS_FAMS[1 + int(rng.integers(len(ENS_FAMS) - 1))]]
                 for fi, ef in enumerate(fams):
